@@ -244,6 +244,18 @@ def case_misid(col, p):
     _cmp(col, 'C09:misid_func', p, out, ex, np.zeros(shape, bool), False)
     if seen != {'params': [2.0, 3.0], 'ns': ns, 'pts': 17, 'extra': 'e'}:
         col.violation('C09:misid_func:plumbing', p, seen)
+    # the older wrapper Inference.add_misid_param (deprecated, still public) is the same convex mix
+    import warnings as _w
+    from dadi import Inference
+    try:
+        with _w.catch_warnings():
+            _w.simplefilter('ignore')
+            mf_old = Inference.add_misid_param(model)
+            out_old = mf_old([2.0, 3.0, 0.25], ns, 17, extra='e')
+        col.tick(transitions=1)
+        _cmp(col, 'C09:add_misid_param', p, out_old, ex, np.zeros(shape, bool), False)
+    except Exception as e:
+        col.violation('C09:add_misid_param:raises', p, '%s: %s' % (type(e).__name__, e))
     # call history of ONE wrapped function: same demographic parameters and grid, but other sample sizes / extra arguments / p_misid;
     # every call must return (1-p) x + p mirror(x) of the model evaluated with the arguments of THAT call
     def model2(params, ns_, pts, extra=1.0, scale=1.0):
